@@ -445,8 +445,10 @@ def op_mkdir_p(I, path):
         if node.kind != "dir":
             raise FsErr("NotADirectory")
         ent = find_child(node, c, env.w)
-        if env.sched is not None:
-            env.sched.note_read(env, path_from(True, comps[:k + 1]))     # existence probe of create_dir_all
+        if env.sched is not None and ent is None:
+            # the probe found nothing: another process creating this directory first changes what happens next
+            # (a probe that finds the directory can only be affected by a removal, which C07's operations never do)
+            env.sched.note_read(env, path_from(True, comps[:k + 1]))
         if ent is None:
             fail_if_injected(env.act("mkdir", path_from(True, comps[:k + 1]), mutating=True))
             # racing creator (another process) may have made it meanwhile
